@@ -14,11 +14,11 @@ import (
 
 type verifyAnchors struct {
 	verify, pollardVerify, mpVerify, mpVPP, stumpUpdate *ssa.Function
-	core                                                  *ssa.Function
-	entries                                               []*ssa.Function
-	vc                                                    map[*ssa.Function]bool // verification closure
-	spine                                                 map[*ssa.Function]bool // functions from which the core is reachable
-	missing                                               []string
+	core                                                *ssa.Function
+	entries                                             []*ssa.Function
+	vc                                                  map[*ssa.Function]bool // verification closure
+	spine                                               map[*ssa.Function]bool // functions from which the core is reachable
+	missing                                             []string
 }
 
 func resolveVerifyAnchors(p *Program) *verifyAnchors {
@@ -105,7 +105,7 @@ func matchTests(fn *ssa.Function, C ssa.Value) []*ssa.BinOp {
 	for _, b := range fn.Blocks {
 		for _, in := range b.Instrs {
 			bo, ok := in.(*ssa.BinOp)
-			if !ok || bo.Op != token.EQL || !isHashType(bo.X.Type()) {
+			if !ok || (bo.Op != token.EQL && bo.Op != token.NEQ) || !isHashType(bo.X.Type()) {
 				continue
 			}
 			xC, yC := elemLoadOf(bo.X, isC), elemLoadOf(bo.Y, isC)
@@ -412,7 +412,8 @@ func checkMatchGuard(p *Program, r *Report, fn *ssa.Function, core *ssa.Function
 		key := fmt.Sprintf("%s/match#%d", name, i+1)
 		ok := false
 		for _, gd := range guardsAt(g.Block()) {
-			if gd.Truth && isTest[gd.Cond] {
+			// the equality holds on the true edge of ==, or on the false edge of !=
+			if bo, isBO := gd.Cond.(*ssa.BinOp); isBO && isTest[gd.Cond] && gd.Truth == (bo.Op == token.EQL) {
 				ok = true
 			}
 		}
